@@ -199,3 +199,30 @@ func judgeCert(t *world.TaskSpec, n int, unsat bool, lines []string, out *Outcom
 		}
 	}
 }
+
+var touchSink int
+
+// touch reads every element of a delivered value.
+func touch(v any) {
+	n := 0
+	switch x := v.(type) {
+	case []bool:
+		for _, b := range x {
+			if b {
+				n++
+			}
+		}
+	case solver.Result:
+		for _, b := range x.Model {
+			if b {
+				n++
+			}
+		}
+		n += x.Weight
+	case string:
+		n += len(x)
+	}
+	if n < 0 {
+		touchSink++
+	}
+}
